@@ -335,6 +335,12 @@ func depth2Family(lv []*Expr) *core.Family {
 		{"c==l", func(c, l *Expr) *Expr { return Bin(OEq, c, l) }},
 		{"[c].contains(l)", func(c, l *Expr) *Expr { return Bin(OContains, SetLit(c), l) }},
 		{"{k:c}.k==l", func(c, l *Expr) *Expr { return Bin(OEq, Access(RecLit([]string{"k"}, []*Expr{c}), "k"), l) }},
+		// literals with a sibling: every member of a record or set literal is evaluated, whichever is used
+		{"{k:l,o:c}.k==l", func(c, l *Expr) *Expr { return Bin(OEq, Access(RecLit([]string{"k", "o"}, []*Expr{l, c}), "k"), l) }},
+		{"{k:c,o:l}.o==l", func(c, l *Expr) *Expr { return Bin(OEq, Access(RecLit([]string{"k", "o"}, []*Expr{c, l}), "o"), l) }},
+		{"{k:l,o:c} has k", func(c, l *Expr) *Expr { return Has(RecLit([]string{"k", "o"}, []*Expr{l, c}), "k") }},
+		{"[l,c].contains(l)", func(c, l *Expr) *Expr { return Bin(OContains, SetLit(l, c), l) }},
+		{"[c,l].contains(l)", func(c, l *Expr) *Expr { return Bin(OContains, SetLit(c, l), l) }},
 	}
 	nl := len(lv)
 	type combo struct {
